@@ -73,12 +73,18 @@ class FakeFileStore:
 
 
 class FakeClientSession:
+    """the driver's HTTP client towards the workers: every call is recorded and answered with success; `hook`, when set, is awaited
+    inside the call (what happens in the world while the request is in flight, e.g. the instance is preempted)"""
+
     def __init__(self):
         self.calls: List[Any] = []
+        self.hook: Any = None
 
     def __getattr__(self, name):
         async def rec(*a, **k):
             self.calls.append((name, a, k))
+            if self.hook is not None:
+                await self.hook(name, a, k)
             return None
         return rec
 
